@@ -116,6 +116,7 @@ func Load(cfg LoadConfig) (*Program, error) {
 		return nil, fmt.Errorf("library packages %s and %s not both loaded (%d packages)", rootPkgPath, enginePkgPath, len(pkgs))
 	}
 	p.collectLibFuncs()
+	unspillReturns(p.libFuncs)
 	return p, nil
 }
 
@@ -194,4 +195,89 @@ func (p *Program) PosCol(pos token.Pos) string {
 	ps := p.Fset.Position(pos)
 	f := strings.TrimPrefix(ps.Filename, p.Cfg.Dir+"/")
 	return fmt.Sprintf("%s:%d:%d", f, ps.Line, ps.Column)
+}
+
+// unspillReturns undoes go/ssa's "defer-spilled returns" where that is exact. In a function with a defer statement
+// every `return v` is built as `*slot = v; rundefers; t = *slot; return t` - so that a deferred closure could
+// still change a named result. When the slot is referred to by nothing but such stores and loads (no closure
+// captures it, its address goes nowhere), the load yields the value just stored, and the rules - which look at
+// what a return returns - are shown that value. Without this a `defer mu.Unlock()` added to a function makes
+// every rule that reads its constant results blind (met with seed C05h, where two rules of C08 raised false
+// alarms on a change that does not touch the order of terms).
+func unspillReturns(fns []*ssa.Function) int {
+	n := 0
+	for _, fn := range fns {
+		if fn.Recover == nil && !hasDefer(fn) {
+			continue
+		}
+		for _, b := range fn.Blocks {
+			if len(b.Instrs) == 0 {
+				continue
+			}
+			ret, ok := b.Instrs[len(b.Instrs)-1].(*ssa.Return)
+			if !ok {
+				continue
+			}
+			for i, res := range ret.Results {
+				ld, ok := res.(*ssa.UnOp)
+				if !ok || ld.Op != token.MUL || ld.Block() != b {
+					continue
+				}
+				slot, ok := ld.X.(*ssa.Alloc)
+				if !ok || !plainSlot(slot) {
+					continue
+				}
+				// the last store to the slot before the load, in this block, with nothing but rundefers in between
+				var val ssa.Value
+				for j := len(b.Instrs) - 1; j >= 0; j-- {
+					if st, ok := b.Instrs[j].(*ssa.Store); ok && st.Addr == ssa.Value(slot) {
+						val = st.Val
+						break
+					}
+				}
+				if val == nil {
+					continue
+				}
+				ret.Results[i] = val
+				if refs := val.Referrers(); refs != nil {
+					*refs = append(*refs, ret)
+				}
+				n++
+			}
+		}
+	}
+	return n
+}
+
+func hasDefer(fn *ssa.Function) bool {
+	for _, b := range fn.Blocks {
+		for _, in := range b.Instrs {
+			if _, ok := in.(*ssa.Defer); ok {
+				return true
+			}
+		}
+	}
+	return false
+}
+
+func plainSlot(a *ssa.Alloc) bool {
+	if a.Referrers() == nil {
+		return false
+	}
+	for _, r := range *a.Referrers() {
+		switch x := r.(type) {
+		case *ssa.Store:
+			if x.Addr != ssa.Value(a) {
+				return false
+			}
+		case *ssa.UnOp:
+			if x.Op != token.MUL {
+				return false
+			}
+		case *ssa.DebugRef:
+		default:
+			return false
+		}
+	}
+	return true
 }
